@@ -52,7 +52,7 @@ add("C01", "runtime monitoring: lock-step online checker - sys.monitoring probes
     TRUST + "Probabilistic runs are judged conditioned on the outcomes drawn; outcome frequencies are not judged.", "DESIGN.md section 5, C01")
 
 add("C12", "runtime monitoring: invariant-at-a-hook / history checker - after every edit of a generated edit history the live CircuitDAG is walked by an independent structural checker and compared with the harness' own specification of each register wire",
-    "All edit histories of length <=2 (thorough <=3, ~40k histories) over a fixed 34-edit alphabet and random histories up to 200 edits over {add, insert_at on compatible edges, remove_op, replace_op, unwrap_nodes, group_one_qubit_gates, remove_identity, register additions, copy, assign_noise}. After every edit: acyclic, sources/sinks are the register inputs/outputs, each wire is a single path visiting exactly the specified operations in the specified order (object identity where known), edge_dict and node_dict agree with the graph, sequence() is a topological order, depth and register_depth equal the oracle's dynamic programme, register counts only change through register additions.",
+    "All edit histories of length <=2 (thorough <=3, ~40k histories) over a fixed 35-edit alphabet and random histories up to 200 edits over {add, insert_at on compatible edges, remove_op, replace_op, unwrap_nodes, group_one_qubit_gates, remove_identity, register additions, copy, assign_noise}. After every edit: acyclic, sources/sinks are the register inputs/outputs, each wire is a single path visiting exactly the specified operations in the specified order (object identity where known), edge_dict and node_dict agree with the graph, sequence() is a topological order, depth and register_depth equal the oracle's dynamic programme, register counts only change through register additions.",
     TRUST + "register_depth (exponential-time in graphiq) is only queried on circuits with <=28 nodes.", "DESIGN.md section 5, C12")
 
 add("C18", "runtime monitoring: boundary monitors on the nine cost-metric classes (default and explicit construction) and on depth / register_depth, judged by an independent cost oracle over the harness' own operation lists",
